@@ -470,6 +470,31 @@ func c10Gen(g *Gen) {
 		}
 	}
 
+	// coincident lengths: the inline prefix adds exactly (or one off) what unescaping removes, so that the actual
+	// length equals len(value), or the reserved maximum of one record equals the actual length of the next
+	for plen := 1; plen <= 9; plen++ { // length of the inlined value; prefix = len(name) + 1 + plen + 1
+		for _, name := range []string{"a", "bb", "host"} {
+			pre := len(name) + 2 + plen
+			for d := -1; d <= 1; d++ {
+				k := pre + d
+				if k < 0 {
+					continue
+				}
+				v := strings.Repeat(`\n`, k) + "xy"
+				cc := &c10Case{nout: 1, nrec: 3, schema: []string{name, "msg", "env0"}, env: []string{"env0"},
+					rw: []c10Rw{{field: "msg", chain: []c10Step{{code: c10Inline, field: name}, {code: c10Unescape}}}}}
+				cc.recs = []c10Rec{
+					{unix: 1600000000, nsec: 9, fields: []string{strings.Repeat("p", plen), v, "e"}},
+					{unix: 1600000000, nsec: 9, fields: []string{strings.Repeat("p", plen), strings.Repeat("z", len(v)), "e"}},
+					{unix: 1600000000, nsec: 9, fields: []string{strings.Repeat("p", plen), v, "e"}},
+					{unix: 1600000000, nsec: 9, fields: []string{"", strings.Repeat("z", len(v)-k), "e"}},
+				}
+				c10Fit(cc, 6)
+				c10Emit(g, "coincident-lengths", cc)
+			}
+		}
+	}
+
 	// ---- 5. random configurations, one record ----
 	for i := 0; i < g.Pick(1500, 40000); i++ {
 		ns := r.PickInt([]int{1, 2, 3, 3, 5, 8, 13, 14, 15, 16, 17, 40})
@@ -682,6 +707,35 @@ func c10Gen(g *Gen) {
 				c10Fit(cc, 10+r.Intn(20))
 				c10Emit(g, "big-"+role, cc)
 			}
+		}
+	}
+	// lengths between the class boundaries (powers of two and a few others), flag set and unset
+	for _, n := range []int{511, 512, 1000, 1023, 1024, 4095, 4096, 4097, 8192, 10000, 16383, 16384, 32767, 32768, 50000} {
+		for _, role := range []string{"plain", "env", "unescape", "inline-copy"} {
+			if !g.Thorough() && (n+len(role))%2 == 0 {
+				continue
+			}
+			cc := &c10Case{nout: 1, nrec: 3, schema: []string{"host", "msg", "app"}, env: []string{"host"}}
+			rc := c10Rec{fields: []string{"h", "m", "a"}, unescaped: r.Chance(1, 3)}
+			rc.unix, rc.nsec = c10Time(r)
+			v := c10BigValue(r, n)
+			switch role {
+			case "plain":
+				rc.fields[1] = v
+			case "env":
+				rc.fields[0] = v
+			case "unescape":
+				rc.fields[1] = v
+				cc.rw = []c10Rw{{field: "msg", chain: []c10Step{{code: c10Unescape}}}}
+			case "inline-copy":
+				rc.fields[2] = "ap"
+				rc.fields[1] = v
+				cc.rw = []c10Rw{{field: "msg", chain: []c10Step{{code: c10Inline, field: "app"}, {code: c10Copy}}}}
+			}
+			rc2 := c10Rec{unix: rc.unix, nsec: rc.nsec, unescaped: !rc.unescaped, fields: append([]string{}, rc.fields...)}
+			cc.recs = []c10Rec{rc, rc2}
+			c10Fit(cc, 10+r.Intn(20))
+			c10Emit(g, "mid-length-"+role, cc)
 		}
 	}
 	// reserved maximum at / just above 65536 while the unescaped result is below: str32 header, 16-bit length
